@@ -1494,6 +1494,22 @@ def _scenario(seed: int, kind: str):
         f = g.fresh_t()
         S(id=f, op="arrange", src=m, by=[{"col": [a.tid, "id"]}])
         S(id="x1", op="export", src=f, target="polars", ordered=True)
+    elif kind == "scen_empty_args":
+        # verbs called without arguments are legal and do nothing: filter() keeps every row, mutate() / rename({}) / drop()
+        # change nothing (arrange needs a key) - between ordinary verbs, on a table with rows
+        a = table("src0", [("a", "int"), ("b", "int"), ("s", "string")], nrows=r.choice([3, 5, 7]))
+        cur = a.tid
+        steps = [dict(op="filter", preds=[]), dict(op="mutate", cols=[]), dict(op="rename", map=[]), dict(op="drop", cols=[]),
+                 dict(op="filter", preds=[{"fn": "greater_than", "args": [{"col": [a.tid, "id"]}, {"lit": 1}]}]),
+                 dict(op="mutate", cols=[["w", {"fn": "add", "args": [{"col": [a.tid, "a"]}, {"lit": 1}]}]]),
+                 dict(op="arrange", by=[{"fn": "descending", "args": [{"col": [a.tid, "id"]}]}])]
+        chosen = [steps[0]] + r.sample(steps[1:], r.randint(2, 5))
+        r.shuffle(chosen)
+        for st in chosen:
+            nxt = g.fresh_t()
+            S(id=nxt, src=cur, **st)
+            cur = nxt
+        S(id="x1", op="export", src=cur, target="polars", ordered=False)
     else:
         raise ValueError(kind)
     p = g.program()
